@@ -78,8 +78,11 @@ def run_cli(argv: list[str], env: dict | None = None):
     return res
 
 
-def _call(args):
-    fn, item = args
+_FN = None
+
+
+def _call(item):
+    fn = _FN  # inherited through fork: the function itself is never pickled (closures and lambdas work)
     try:
         return ("ok", fn(item))
     except BaseException as e:  # noqa
@@ -92,11 +95,13 @@ def pool_map(fn, items, procs: int | None = None, chunksize: int = 1):
     if not items:
         return []
     procs = min(procs or (os.cpu_count() or 4), len(items))
+    global _FN
+    _FN = fn
     if procs <= 1:
-        return [_call((fn, it)) for it in items]
+        return [_call(it) for it in items]
     ctx = mp.get_context("fork")
     with ctx.Pool(procs) as pool:
-        return pool.map(_call, [(fn, it) for it in items], chunksize=chunksize)
+        return pool.map(_call, items, chunksize=chunksize)
 
 
 def read_report(path) -> dict | None:
